@@ -208,6 +208,8 @@ class World(WorldBase):
                 "cells": rng.choice(["const", "const", "vary", "vary", "shear", "cycle"]),
                 "nvary": rng.random() < 0.25,
                 "tvary": rng.random() < 0.2,
+                "grow": rng.random() < 0.15,
+                "vanish": rng.random() < 0.4,
                 "subseed": rng.randrange(1 << 40),
             }
             if not exact and rng.random() < 0.15:
